@@ -154,6 +154,17 @@ pub fn live() -> (usize, usize) {
     })
 }
 
+/// Size of the live tracked block that starts at `ptr` (None: not a live tracked block start).
+pub fn block_size(ptr: *const u8) -> Option<usize> {
+    TRACKER.with(|c| {
+        let p = c.get();
+        if p.is_null() {
+            return None;
+        }
+        unsafe { (*p).live.get(&(ptr as usize)).map(|(l, _)| l.size()) }
+    })
+}
+
 /// Number of events recorded so far in this window.
 pub fn events_so_far() -> usize {
     TRACKER.with(|c| {
